@@ -451,7 +451,14 @@ def selftest(wd, lines):
 
 def do_replay(rep, wd, obj):
     case = obj["case"]
-    if case["kind"] == "component":
+    if case["kind"] == "bmsize":
+        bp, bo = os.path.join(wd, "bmsize_cases.ndjson"), os.path.join(wd, "bmsize_out.ndjson")
+        vlib.write_ndjson(bp, [case["case"]])
+        vlib.harness(["segment", "e2e", "bmsize", "--cases", bp, "--out", bo, "--dir", os.path.join(wd, "bmsize_chain")], timeout=600)
+        x = vlib.read_ndjson(bo)[0]
+        if x["desegmenter"] != x["spec"] or x["serving"] != x["spec"]:
+            rep.violation(obj["signature"], case, json.dumps(x))
+    elif case["kind"] == "component":
         checks, ops, res = run_component(rep, wd, [case["case"]], "replay")
     elif case["kind"] == "trace":
         lines = vlib.read_ndjson(case["trace"])
@@ -520,6 +527,30 @@ def run(tier, replay):
     for a in ("MCFinalize",):
         if ac.get(a, (0, 0))[0] == 0:
             raise ToolError("MC_Desegmenter: action %s never taken" % a)
+    # component: the bitmap MMR size expected for an archive header, definitional (Desegmenter.tla) vs
+    # Desegmenter::expected_bitmap_mmr_size vs a serving node's BitmapAccumulator
+    bm = r_des.printed("BMSIZE")
+    if not bm:
+        raise ToolError("MC_Desegmenter did not print the BMSIZE cases")
+    bm_cases = json.loads(bm[0])
+    if len(bm_cases) < 8:
+        raise ToolError("too few BMSIZE cases")
+    bp, bo = os.path.join(wd, "bmsize_cases.ndjson"), os.path.join(wd, "bmsize_out.ndjson")
+    vlib.write_ndjson(bp, bm_cases)
+    vlib.harness(["segment", "e2e", "bmsize", "--cases", bp, "--out", bo, "--dir", os.path.join(wd, "bmsize_chain")], timeout=600)
+    bm_res = vlib.read_ndjson(bo)
+    if len(bm_res) != len(bm_cases):
+        raise ToolError("bmsize: %d results for %d cases" % (len(bm_res), len(bm_cases)))
+    for c, x in zip(bm_cases, bm_res):
+        if not x["output_mmr_size_ok"]:
+            raise ToolError("bmsize: output MMR size of the spec differs from insertion_to_pmmr_index")
+        if x["desegmenter"] != x["spec"]:
+            rep.violation("pibd:expected_bitmap_mmr_size:outputs=%d" % c["outputs"], {"kind": "bmsize", "case": c, "observed": x},
+                          "desegmenter expects bitmap MMR size %s for %d outputs, definition %s, serving node %s"
+                          % (x["desegmenter"], c["outputs"], x["spec"], x["serving"]))
+        if x["serving"] != x["spec"]:
+            rep.violation("pibd:serving_bitmap_mmr_size:outputs=%d" % c["outputs"], {"kind": "bmsize", "case": c, "observed": x},
+                          "BitmapAccumulator for %d outputs has MMR size %s, definition %s" % (c["outputs"], x["serving"], x["spec"]))
     # the invariants are not vacuous: without validate-then-cache and the final root check the model finalises
     # wrong roots (tiny configuration)
     tcfg = os.path.join(wd, "deseg_tiny.json")
@@ -573,7 +604,8 @@ def run(tier, replay):
                           "corruptions_by_kind_dep_verdict": {"%s:dep=%s:valid=%s" % k: n for k, n in sorted(ops.items())},
                           "depended_on_corruptions_refused": dep_rejected},
         "desegmenter_model": {"states": r_des.distinct, "transitions": r_des.generated, "tlc_s": round(t_des, 1),
-                              "actions": {k: v[0] for k, v in ac.items()}, "mutant_model_violates": True},
+                              "actions": {k: v[0] for k, v in ac.items()}, "mutant_model_violates": True,
+                              "bitmap_mmr_size_cases": bm_res},
         "e2e": {"sources": src_info, "scenarios": cov["scenarios"], "finalised_equal_to_twin": cov["finalised"],
                 "deliveries_by_kind_verdict": cov["deliveries"], "trace_events_validated": cov["trace_events"],
                 "selftests": st, "segment_height_hook_present": hook},
